@@ -24,6 +24,7 @@ import (
 
 	"google.golang.org/grpc"
 	"google.golang.org/grpc/metadata"
+	"google.golang.org/grpc/status"
 )
 
 type key int
@@ -87,6 +88,8 @@ type gcpClientStream struct {
 
 	cond          *sync.Cond
 	initStreamErr error
+	// watching is set once wakeOnCtxDone is running.
+	watching bool
 
 	ctx      context.Context
 	desc     *grpc.StreamDesc
@@ -117,23 +120,43 @@ func (cs *gcpClientStream) SendMsg(m interface{}) error {
 
 func (cs *gcpClientStream) RecvMsg(m interface{}) error {
 	// If RecvMsg is called before SendMsg, it should wait until cs.ClientStream
-	// is initialized or the initialization failed.
+	// is initialized, the initialization failed or the context ended.
 	cs.Lock()
 	cs.waitForStream()
 	if cs.initStreamErr != nil {
 		cs.Unlock()
 		return cs.initStreamErr
 	}
+	if cs.ClientStream == nil {
+		cs.Unlock()
+		return status.FromContextError(cs.ctx.Err()).Err()
+	}
 	cs.Unlock()
 	return cs.ClientStream.RecvMsg(m)
 }
 
-// waitForStream blocks until the underlying ClientStream is initialized or the
-// initialization failed. cs must be locked by the caller.
+// waitForStream blocks until the underlying ClientStream is initialized, the
+// initialization failed or the context of the call ended. cs must be locked by
+// the caller.
 func (cs *gcpClientStream) waitForStream() {
-	for cs.initStreamErr == nil && cs.ClientStream == nil {
+	for cs.initStreamErr == nil && cs.ClientStream == nil && cs.ctx.Err() == nil {
+		if !cs.watching && cs.ctx.Done() != nil {
+			cs.watching = true
+			go cs.wakeOnCtxDone()
+		}
 		cs.cond.Wait()
 	}
+}
+
+// wakeOnCtxDone wakes up the callers blocked in waitForStream when the context
+// of the call ends.
+func (cs *gcpClientStream) wakeOnCtxDone() {
+	<-cs.ctx.Done()
+	// Taking the lock orders the wake-up after the Wait of a caller that has
+	// checked the context just before it ended.
+	cs.Lock()
+	cs.Unlock()
+	cs.cond.Broadcast()
 }
 
 // The methods below must not be promoted from the embedded ClientStream: it is
@@ -148,6 +171,10 @@ func (cs *gcpClientStream) Header() (metadata.MD, error) {
 	if cs.initStreamErr != nil {
 		cs.Unlock()
 		return nil, cs.initStreamErr
+	}
+	if cs.ClientStream == nil {
+		cs.Unlock()
+		return nil, status.FromContextError(cs.ctx.Err()).Err()
 	}
 	cs.Unlock()
 	return cs.ClientStream.Header()
